@@ -451,3 +451,36 @@ def _assigns( n, v ):
 
 def _within( src, node, loop ):
     return any( a is loop for a in src.ancestors( node ))
+
+
+@rule( 'N-RECV', props=( 'C02', 'C13', 'C06' ), floor=4 )
+def n_recv( ctx ):
+    """network.recv/recvfrom: a timeout (nothing readable) yields None, end-of-stream or a dead socket yields b'' - the two must stay distinguishable for every receive loop"""
+    res = Result( 'N-RECV' )
+    src = ctx.src( 'server/network.py' )
+    for name, dflt in (( 'recv', 'None' ), ( 'recvfrom', '( None, None )' )):
+        fn = src.get( name )
+        decs = [ d for d in fn.decorator_list if is_call_to( d, 'readable' ) ]
+        kw = { k.arg: k.value for d in decs for k in d.keywords }
+        if decs and 'default' in kw and pmatch( kw['default'], dflt ):
+            res.ok( src, fn, '%s: @readable( default=%s ): a timeout returns %s' % ( name, dflt, dflt ))
+        else:
+            res.bad( src, fn, '%s decorators %s' % ( name, [ norm_text( d ) for d in fn.decorator_list ] ), 'a receive timeout must be reported as None (not as empty data, which means EOF)' )
+        hs = [ h for h in ast.walk( fn ) if isinstance( h, ast.ExceptHandler ) ]
+        eof = [ s for h in hs for s in ast.walk( h ) if isinstance( s, ast.Assign ) and any( isinstance( c, ast.Constant ) and c.value == b'' for c in ast.walk( s.value )) ]
+        if hs and eof:
+            res.ok( src, hs[0], '%s: a socket error is reported as EOF (b\'\')' % name )
+        else:
+            res.bad( src, fn, '%s socket.error handling' % name, 'a dead connection must be reported as EOF (empty data) so that the receive loop terminates' )
+    rd = src.get( 'readable' )
+    rets = [ r for r in ast.walk( rd ) if isinstance( r, ast.Return ) and r.value is not None and pmatch( r.value, 'function( *args, **kwds ) if r else default' ) ]
+    if rets:
+        res.ok( src, rets[0], 'readable: call the function only when select reports the socket readable, else return the default' )
+    else:
+        res.bad( src, rd, 'readable wrapper', 'the wrapped function must be called only when select reported readability; otherwise the default (timeout) is returned' )
+    # the timeout passed to select is the remaining time, recomputed after EINTR
+    if pfind( rd, 'select.select( [ args[0].fileno() ], [], [], rem )' ):
+        res.ok( src, rd, 'readable: select on the connection with the remaining timeout' )
+    else:
+        res.bad( src, rd, 'readable select', 'readability must be tested with select on the connection\'s file descriptor with the (remaining) timeout' )
+    return res
